@@ -55,7 +55,7 @@ CLAIMS = {
         "technique": RM,
     },
     "C17": {
-        "text": "All 17x17 colour pairs on every writer kind (Vec, File, the three dyn Write trait-object kinds, and Stdout / StdoutLock / Stderr / StderrLock in child processes with both pipes captured), all fault scripts up to the depth bound at each of the up-to-four inner writes, File after a failed call, and several threads writing through the process-wide handles (the pipe must be a concatenation of whole frames); output parsed and interpreted by the reference models, return value compared with the bytes the writer accepted.",
+        "text": "All 17x17 colour pairs on every writer kind (Vec, File, the three dyn Write trait-object kinds, and Stdout / StdoutLock / Stderr / StderrLock in child processes with both pipes captured), all fault scripts up to the depth bound at each of the up-to-four inner writes, File after a failed call, every data length up to 1100 bytes on every writer kind, standard streams on /dev/full, a coloured write from a thread-local destructor, and several threads writing through the process-wide handles (the pipe must be a concatenation of whole frames); output parsed and interpreted by the reference models, return value compared with the bytes the writer accepted.",
         "design_ref": "7 C17",
         "note": "trusts refmodel::{vt,sgr}",
         "technique": "runtime monitoring: scripted fault-injecting writer + reference interpretation of the accepted bytes, exhaustive colour pairs and fault scripts",
@@ -67,19 +67,19 @@ CLAIMS = {
         "technique": "runtime monitoring: recording console writer + reference run model, exhaustive fault scripts",
     },
     "C05": {
-        "text": "Everything a style can render is parsed and interpreted by independent VT and SGR models: exhaustive over effect sets and every colour value per slot, seeded random combinations, ~240 format-flag specs on a subset (the alternate flag also on render()); Display, write_to and reset paths compared byte for byte, the io::Write path also into writers that take one or three bytes per call, fail with Interrupted, or gather.",
+        "text": "Everything a style can render is parsed and interpreted by independent VT and SGR models: exhaustive over effect sets and every colour value per slot, seeded random combinations, ~240 format-flag specs on a subset (the alternate flag also on render()); Display, write_to and reset paths compared byte for byte, the io::Write path also into writers that take one or three bytes per call, fail with Interrupted, or gather, and the Display and io::Write paths into fixed-capacity sinks that refuse a piece and stay usable (success means the whole rendering was delivered).",
         "design_ref": "7 C05, 8.4",
         "note": "trusts refmodel::{vt,sgr}; underline codes read as independent flags",
         "technique": RM,
     },
     "C10": {
-        "text": "Optimality and tie-breaking checked against an own distance/argmin for every explored (colour, palette); thorough tier enumerates all 2^24 RGB values for both targets and 6 palettes, quick tier a lattice plus near-candidate random colours.  All finite conversions exhaustive in both tiers.",
+        "text": "Optimality and tie-breaking checked against an own distance/argmin for every explored (colour, palette); thorough tier enumerates all 2^24 RGB values for both targets and 27 palettes (built-in, random, near-built-in, permuted built-in, bright-repeats-normal, entries one step apart, all-one-corner, one slot recoloured), quick tier a lattice plus near-candidate random colours over 31 palettes.  All finite conversions exhaustive in both tiers.",
         "design_ref": "7 C10, 3.3, 8.10",
         "note": "the integer red-mean weights are taken as the specification of the metric",
         "technique": RM + " (exhaustive over 2^24 colours in the thorough tier)",
     },
     "C11": {
-        "text": "Accept/reject, denotation, error variant and payload compared with an independent recogniser on exhaustive word combinations, hex near-misses (incl. signs and non-ASCII), single-edit mutations, seeded sentences and arbitrary Unicode; print/parse round trip for every expressible style sampled.",
+        "text": "Accept/reject, denotation, error variant and payload compared with an independent recogniser on exhaustive word combinations, hex near-misses (incl. signs and non-ASCII), single-edit mutations, words glued together or behind doubled negation prefixes, seeded sentences and arbitrary Unicode; print/parse round trip for every expressible style sampled.",
         "design_ref": "7 C11, 3.4, 8.6",
         "note": "inputs whose meaning the statement leaves open are checked for panics only",
         "technique": RM,
@@ -115,7 +115,7 @@ CLAIMS = {
         "technique": "runtime monitoring: lock-step differential execution of operation histories against reference streams",
     },
     "C09": {
-        "text": "The whole finite configuration space named by the property (3072 environments x 9 stream kinds, stdout / stderr on pipes, on a pty and in the two mixed layouts, and with descriptors 1 and 2 re-attached while the process runs) is enumerated in a single-threaded child and every decision logged; an offline checker evaluates the documented decision table over the event log and requires every tuple to be present.  COLORTERM, the clap flag mapping and unusual values are covered separately.",
+        "text": "The whole finite configuration space named by the property (3072 environments x 9 stream kinds, stdout / stderr on pipes, on a pty and in the two mixed layouts, and with descriptors 1 and 2 re-attached while the process runs) is enumerated in a single-threaded child and every decision logged; an offline checker evaluates the documented decision table over the event log and requires every tuple to be present.  COLORTERM, 25 further TERM names, the clap flag mapping and unusual values (incl. variables that are not Unicode) are covered separately; a panic of the decision code in the child is a violation.",
         "design_ref": "7 C09, 3.4",
         "note": "needs a pty for the terminal half (inconclusive, not passed, if none can be opened); Windows-specific probes are not executed",
         "technique": "runtime monitoring: exhaustive configuration enumeration in a child process + offline event-log checker against a decision table",
@@ -127,8 +127,8 @@ CLAIMS = {
         "technique": "runtime monitoring: offline history checker over pipe output (contiguity / exactly-once / order), register history checker, Miri many-seeds and ThreadSanitizer lanes",
     },
     "C14": {
-        "text": "Every generated document is rendered under 20 terminal configurations (round-robin) and parsed by expat; text per line, denotation of every class used, background layer, default colours, line positions and canvas height are checked against reference VT/SGR/palette models.",
-        "design_ref": "7 C14, 8.7",
+        "text": "Every generated document is rendered under 20 terminal configurations (round-robin) and parsed by expat; text per line, denotation of every class used, background layer, default colours, line positions and canvas height are checked against reference VT/SGR/palette models; fixed small captures (reverse video without any background, CR LF pairs split across styled runs, zero-width-only fragments) and one capture larger than 1 MiB are part of every run.",
+        "design_ref": "7 C14, 8.7, 6 F17",
         "note": "class denotation is read from the CSS declarations; Python's expat is the trusted XML parser",
         "technique": "runtime monitoring: offline checker over recorded outputs (independent XML parse + reference-model expectation)",
     },
